@@ -286,7 +286,15 @@ func c16RuleTokensNamed(rule *c16Rule, name string, st c16Style, r *rand.Rand) [
 			op = "!" + op
 		}
 		if rule.OpArg != "" {
-			op += " " + string(rule.OpArg)
+			// white space between the operator name and its argument, and after the argument, separates and is no
+			// part of the argument, whatever kind of white space it is
+			sep, tail := " ", ""
+			if st.ValSpace {
+				// (the name ends at the first blank: a tab right after the name is not offered)
+				sep = c16Pick(r, []string{" ", "  ", " \t", " \t "})
+				tail = c16Pick(r, []string{"", "", " ", "\t"})
+			}
+			op += sep + string(rule.OpArg) + tail
 		}
 		op = strings.ReplaceAll(op, `"`, `\"`)
 		s := `"` + op + `"`
